@@ -1,6 +1,469 @@
-import RsjProofs.Format
+/-
+  C19 — `std.format` / `%` follow printf-style formatting.
+  Property theorems only (helper lemmas live in RsjProofs/Format*.lean).
+
+  Model: RsjModel/Format.lean (`parseFormat`, `stepArray` / `fmtArrayGo`,
+  `stepObject` / `fmtObjectGo`, `renderCode`, `decorate`, `padField`), parameterised
+  by the trusted host digit generators `Host`.  All statements are for every host,
+  code, value, width and precision; lengths are counted in characters (`List Char`).
+-/
+import RsjProofs.FormatExtra
 namespace Rsj.Format
-theorem C19_placeholder : padField true 0 [] = [] := rfl
+
+/-! ## Field width (F3) -/
+
+/-- **C19 field_width.** In array mode a rendered field has at least as many
+    characters as its width — the inline width or the `*` argument — for every
+    conversion (including `%%`), flag set and value. -/
+theorem C19_field_width {h : Host} {c : Code} {arr : List Val} {i i' : Nat} {s : List Char}
+    (hs : stepArray h c arr i = .ok (s, i')) :
+    ∃ w, resolvedWidth c arr i = some w ∧ w ≤ s.length := by
+  obtain ⟨fw, r, hres, rfl, _, _⟩ := stepArray_field hs
+  exact ⟨fw, hres, padField_length _ _ _⟩
+
+/-- … and in object mode (`*` is rejected there). -/
+theorem C19_field_width_object {h : Host} {c : Code} {o : List (List Char × Val)} {s : List Char}
+    (hs : stepObject h c o = .ok s) : inlineWidth c ≤ s.length := stepObject_ok hs
+
+/-- Whole formats: the result has at least as many characters as all literal text
+    plus all inline widths of the parsed format. -/
+theorem C19_field_width_format {h : Host} {f : List Char} {vals : Vals} {out : List Char}
+    (hs : format h (.str f) vals = .ok out) :
+    ∃ parts, parseFormat f = .ok parts ∧ minLen parts ≤ out.length := by
+  simp only [format] at hs
+  split at hs
+  · cases hs
+  · next parts hp =>
+    refine ⟨parts, hp, ?_⟩
+    split at hs
+    · have := (fmtArrayGo_ok (Nat.zero_le _) hs).2; simpa using this
+    · have := fmtObjectGo_ok hs; simpa using this
+    · have := (fmtArrayGo_ok (Nat.zero_le _) hs).2; simpa using this
+
+/-- **C19 left_flag_pads_right.** The field is the rendered text `r` padded with
+    spaces only: trailing with `-`, leading without. -/
+theorem C19_left_flag_pads_right {h : Host} {c : Code} {arr : List Val} {i i' : Nat}
+    {s : List Char} (hs : stepArray h c arr i = .ok (s, i')) :
+    ∃ fw r, resolvedWidth c arr i = some fw ∧
+      (c.conv = .pct → r = ['%']) ∧
+      (c.conv ≠ .pct → ∃ prec item, renderCode h c fw prec item = .ok r) ∧
+      (c.flags.left = true → s = r ++ List.replicate (fw - r.length) ' ') ∧
+      (c.flags.left = false → s = List.replicate (fw - r.length) ' ' ++ r) := by
+  obtain ⟨fw, r, hres, rfl, h1, h2⟩ := stepArray_field hs
+  refine ⟨fw, r, hres, h1, h2, fun hl => ?_, fun hl => ?_⟩
+  · rw [hl]; exact padField_left _ _
+  · rw [hl]; exact padField_right _ _
+
+/-! ## Numeric fields: sign, prefix, zero padding, precision -/
+
+/-- Shape of every numeric field (d i u o x X e E f F g G):
+    `pre ++ zeros ++ body` with `pre` = sign then `0x`/`0X`. -/
+theorem numeric_shape {h : Host} {c : Code} {fw prec : Nat} {v : Val} {s : List Char}
+    (hc : isIntConv c.conv = true ∨ isFloatConv c.conv = true)
+    (hs : renderCode h c fw prec v = .ok s) :
+    ∃ b body,
+      v = .num b ∧
+      Decorated
+        (signStr (if isIntConv c.conv then isNegInt b else isNegFlt b) c.flags.plus c.flags.blank
+          ++ prefixOf c)
+        body (zpOf c fw) (if isIntConv c.conv then iprecOf c prec else 0) s := by
+  rcases hc with hc | hc
+  · obtain ⟨b, body, hv, hd, _⟩ := renderCode_int_shape hc hs
+    exact ⟨b, body, hv, by rw [hc]; exact hd⟩
+  · obtain ⟨b, body, hv, hd⟩ := renderCode_float_shape hc hs
+    have hi : isIntConv c.conv = false := by
+      cases hconv : c.conv <;> simp [isIntConv, isFloatConv, hconv] at hc ⊢
+    have hp : prefixOf c = [] := by
+      cases hconv : c.conv <;> simp [prefixOf, isFloatConv, hconv] at hc ⊢
+    refine ⟨b, body, hv, ?_⟩
+    rw [hi, hp]; simpa using hd
+
+/-- **C19 sign_rules.** `-` for negative values; otherwise `+` beats space; otherwise
+    nothing.  Integer conversions take the sign of the *truncated* value, so `-0.0`
+    and `-0.5` print no sign; floating conversions print no sign for `-0.0` either
+    (Jsonnet's convention; C and Python print `-0.000000`). -/
+theorem C19_sign_rules :
+    (∀ p b, signStr true p b = ['-']) ∧ (∀ b, signStr false true b = ['+']) ∧
+    signStr false false true = [' '] ∧ signStr false false false = [] ∧
+    (∀ b, truncAbs b = 0 → isNegInt b = false) ∧
+    (∀ b, isNegInt b = true → signBit b = true) ∧
+    (∀ b, isZero b = true → isNegFlt b = false) ∧
+    (∀ b, isNegFlt b = true → signBit b = true) := by
+  refine ⟨fun _ _ => rfl, fun _ => rfl, rfl, rfl, ?_, ?_, ?_, ?_⟩
+  · intro b hb; simp [isNegInt, hb]
+  · intro b hb; simp [isNegInt] at hb; exact hb.1
+  · intro b hb; simp [isNegFlt, hb]
+  · intro b hb; simp [isNegFlt] at hb; exact hb.1
+
+/-- … and every numeric field starts with exactly that sign string. -/
+theorem C19_sign_rules_render {h : Host} {c : Code} {fw prec : Nat} {v : Val} {s : List Char}
+    (hc : isIntConv c.conv = true ∨ isFloatConv c.conv = true)
+    (hs : renderCode h c fw prec v = .ok s) :
+    ∃ b rest, v = .num b ∧
+      s = signStr (if isIntConv c.conv then isNegInt b else isNegFlt b)
+            c.flags.plus c.flags.blank ++ rest := by
+  obtain ⟨b, body, hv, hd⟩ := numeric_shape hc hs
+  obtain ⟨k, hk⟩ : ∃ k, s = (signStr (if isIntConv c.conv then isNegInt b else isNegFlt b)
+      c.flags.plus c.flags.blank ++ prefixOf c) ++ List.replicate k '0' ++ body := ⟨_, hd⟩
+  exact ⟨b, prefixOf c ++ (List.replicate k '0' ++ body), hv,
+    by rw [hk]; simp only [List.append_assoc]⟩
+
+/-- **C19 zero_flag_pads_after_sign.** Padding zeros sit between sign/prefix and
+    digits.  With `0` and without `-` the zeros alone bring the field up to the
+    width (so no space is ever added); with `-`, or without `0`, the width adds no
+    zeros at all (`-` overrides `0`, as in C).  Difference from C: with a precision
+    on an integer conversion C ignores `0`; this code (like Python) still zero-pads
+    to the width. -/
+theorem C19_zero_flag_pads_after_sign {h : Host} {c : Code} {fw prec : Nat} {v : Val}
+    {s : List Char} (hc : isIntConv c.conv = true ∨ isFloatConv c.conv = true)
+    (hs : renderCode h c fw prec v = .ok s) :
+    ∃ pre body k, s = pre ++ List.replicate k '0' ++ body ∧
+      (c.flags.zero = true → c.flags.left = false →
+          fw ≤ s.length ∧ padField c.flags.left fw s = s ∧
+          k = max ((if isIntConv c.conv then iprecOf c prec else 0) - body.length)
+                (fw - (pre.length + body.length))) ∧
+      ((c.flags.left = true ∨ c.flags.zero = false) →
+          k = (if isIntConv c.conv then iprecOf c prec else 0) - body.length) := by
+  obtain ⟨b, body, _, hd⟩ := numeric_shape hc hs
+  refine ⟨_, body, _, hd, fun hz hl => ?_, fun hor => ?_⟩
+  · have hzp : zpOf c fw = fw := by simp [zpOf, hz, hl]
+    have hlen := hd.length
+    rw [hzp] at hlen
+    have hle : fw ≤ s.length := by omega
+    exact ⟨hle, padField_of_le _ hle, by rw [hzp]⟩
+  · have hzp : zpOf c fw = 0 := by
+      rcases hor with hl | hz
+      · simp [zpOf, hl]
+      · simp [zpOf, hz]
+    rw [hzp]; omega
+
+/-- **C19 precision_min_digits.** For d i u o x X the precision is the minimum number
+    of digits: zeros plus digit string are at least `precision` long (the octal `#`
+    prefix `0` counts as a digit, as in C; `0x` does not). -/
+theorem C19_precision_min_digits {h : Host} {c : Code} {fw prec : Nat} {v : Val} {s : List Char}
+    (hc : isIntConv c.conv = true) (hs : renderCode h c fw prec v = .ok s) :
+    ∃ b pre k body, v = .num b ∧ s = pre ++ List.replicate k '0' ++ body ∧
+      iprecOf c prec ≤ k + body.length ∧
+      pre = signStr (isNegInt b) c.flags.plus c.flags.blank ++ prefixOf c ∧
+      (c.conv = .dec → displayInt h (absBits b) = .ok body) ∧
+      (c.conv = .oct → body = octDigits (truncAbs b) (if c.flags.alt then ['0'] else [])) ∧
+      (c.conv = .hexL → body = hexDigits (truncAbs b) false) ∧
+      (c.conv = .hexU → body = hexDigits (truncAbs b) true) := by
+  obtain ⟨b, body, hv, hd, h1, h2, h3, h4⟩ := renderCode_int_shape hc hs
+  exact ⟨b, _, _, body, hv, hd, by omega, rfl, h1, h2, h3, h4⟩
+
+/-- **C19 alt_prefixes.** `#`: `0x` / `0X` after the sign for x / X (also for zero,
+    as Python; C prints `0`), a leading `0` for non-zero octal, nothing otherwise. -/
+theorem C19_alt_prefixes :
+    hexPrefix true false = ['0', 'x'] ∧ hexPrefix true true = ['0', 'X'] ∧
+    (∀ cap, hexPrefix false cap = []) ∧
+    (∀ m, m ≠ 0 → octDigits m ['0'] = '0' :: natDigits 8 lowerNum m) ∧
+    (∀ m, m ≠ 0 → octDigits m [] = natDigits 8 lowerNum m) ∧
+    (∀ zp, octDigits 0 zp = ['0']) := by
+  refine ⟨rfl, rfl, fun _ => rfl, fun m hm => ?_, fun m hm => ?_, fun _ => rfl⟩
+  · simp [octDigits, hm]
+  · simp [octDigits, hm]
+
+/-- … at the level of rendered fields. -/
+theorem C19_alt_prefixes_render {h : Host} {c : Code} {fw prec : Nat} {v : Val} {s : List Char}
+    (hc : c.conv = .hexL ∨ c.conv = .hexU) (halt : c.flags.alt = true)
+    (hs : renderCode h c fw prec v = .ok s) :
+    ∃ b k, v = .num b ∧
+      s = signStr (isNegInt b) c.flags.plus c.flags.blank ++
+            ['0', if c.conv = .hexU then 'X' else 'x'] ++ List.replicate k '0' ++
+            hexDigits (truncAbs b) (decide (c.conv = .hexU)) := by
+  have hi : isIntConv c.conv = true := by rcases hc with hc | hc <;> simp [isIntConv, hc]
+  obtain ⟨b, body, hv, hd, _, _, h3, h4⟩ := renderCode_int_shape hi hs
+  obtain ⟨k, hk⟩ : ∃ k, s = (signStr (isNegInt b) c.flags.plus c.flags.blank ++ prefixOf c) ++
+      List.replicate k '0' ++ body := ⟨_, hd⟩
+  rcases hc with hc | hc
+  · refine ⟨b, k, hv, ?_⟩
+    rw [hk, h3 hc]; simp [prefixOf, hc, hexPrefix, halt]
+  · refine ⟨b, k, hv, ?_⟩
+    rw [hk, h4 hc]; simp [prefixOf, hc, hexPrefix, halt]
+
+/-! ## Integer digits -/
+
+/-- **C19 int_digits_correct.** The octal / decimal / hexadecimal digit loops are
+    exact: for `m > 0` the digit string evaluates back to `m` in its radix, every
+    digit is below the radix, and there is no leading zero (`m = 0` prints `0`, see
+    `C19_alt_prefixes`, `C19_int_digits_zero`). -/
+theorem C19_int_digits_correct {r : Nat} (hr : r = 8 ∨ r = 10 ∨ r = 16) {m : Nat} (hm : 0 < m)
+    {num : Nat → Char} (hnum : num = lowerNum ∨ num = upperNum) :
+    ofDigits r ((natDigits r num m).map charVal) = m ∧
+      (∀ ch ∈ natDigits r num m, charVal ch < r) ∧
+      (∃ ch rest, natDigits r num m = ch :: rest ∧ ch ≠ '0') := by
+  have hr2 : 2 ≤ r := by omega
+  have hr16 : r ≤ 16 := by omega
+  obtain ⟨hval, hlt, d, rest, hhead, hd0⟩ := natDigitsN_spec hr2 hm
+  have hcv : ∀ d, d < 16 → charVal (num d) = d := by
+    rcases hnum with rfl | rfl
+    · exact charVal_lowerNum
+    · exact charVal_upperNum
+  have hlt16 : ∀ d ∈ natDigitsN r m, d < 16 := fun d hd => Nat.lt_of_lt_of_le (hlt d hd) hr16
+  rw [natDigits_map]
+  refine ⟨?_, ?_, ?_⟩
+  · rw [map_charVal_num hcv hlt16]; exact hval
+  · intro ch hch
+    obtain ⟨d', hd', rfl⟩ := List.mem_map.mp hch
+    rw [hcv d' (hlt16 d' hd')]; exact hlt d' hd'
+  · refine ⟨num d, rest.map num, by rw [hhead]; rfl, fun h0 => ?_⟩
+    have hdl : d < 16 := hlt16 d (by rw [hhead]; exact List.mem_cons_self ..)
+    have := hcv d hdl
+    rw [h0] at this
+    exact hd0 (by rw [← this]; rfl)
+
+/-- The digit strings the renderers use are those loops (decimal: below 2^53, where
+    the host's `to_string` is the exact expansion; above, the host string is used). -/
+theorem C19_int_digits_zero (h : Host) :
+    (∀ m, m ≠ 0 → hexDigits m false = natDigits 16 lowerNum m) ∧
+    (∀ m, m ≠ 0 → hexDigits m true = natDigits 16 upperNum m) ∧
+    (∀ cap, hexDigits 0 cap = ['0']) ∧
+    (∀ ab, truncAbs ab = 0 → displayInt h ab = .ok ['0']) ∧
+    (∀ ab, truncAbs ab ≠ 0 → truncAbs ab < TWO53 →
+        displayInt h ab = .ok (natDigits 10 lowerNum (truncAbs ab))) := by
+  refine ⟨fun m hm => ?_, fun m hm => ?_, fun _ => rfl, fun ab h0 => ?_, fun ab h0 h1 => ?_⟩
+  · simp [hexDigits, hm]
+  · simp [hexDigits, hm]
+  · simp [displayInt, h0]
+  · simp [displayInt, h0, h1]
+
+/-! ## `%%` -/
+
+/-- **C19 percent_literal.** `%%` parses to a directive that consumes no argument
+    and appends a single `%`, in array and in object mode. -/
+theorem C19_percent_literal (h : Host) :
+    (∀ rest, parseCode ('%' :: rest) = .ok (pctCode, rest)) ∧
+    parseFormat ['%', '%'] = .ok [.code pctCode] ∧
+    (∀ arr ps i acc, fmtArrayGo h arr (.code pctCode :: ps) i acc = fmtArrayGo h arr ps i (acc ++ ['%'])) ∧
+    (∀ o ps acc, fmtObjectGo h o (.code pctCode :: ps) acc = fmtObjectGo h o ps (acc ++ ['%'])) ∧
+    neededCode pctCode = 0 := by
+  refine ⟨parseCode_pct, rfl, fun arr ps i acc => ?_, fun o ps acc => ?_, rfl⟩
+  · rw [fmtArrayGo, stepArray_pct]
+  · rw [fmtObjectGo, stepObject_pct]
+
+/-! ## Parser totality -/
+
+/-- **C19 parse_total.** The parser always returns: a list of parts, or exactly one
+    of the five diagnosed malformations (never a panic, never non-termination — the
+    model's fuel outcome is unreachable). -/
+theorem C19_parse_total (s : List Char) :
+    (∃ parts, parseFormat s = .ok parts) ∨ parseFormat s = .error .truncated ∨
+      parseFormat s = .error .widthTooLarge ∨ parseFormat s = .error .precTooLarge ∨
+      parseFormat s = .error .missingPrecDigits ∨ ∃ c, parseFormat s = .error (.invalidConv c) := by
+  cases hres : parseFormat s with
+  | ok parts => exact Or.inl ⟨parts, rfl⟩
+  | error e =>
+    cases e with
+    | truncated => exact Or.inr (Or.inl rfl)
+    | widthTooLarge => exact Or.inr (Or.inr (Or.inl rfl))
+    | precTooLarge => exact Or.inr (Or.inr (Or.inr (Or.inl rfl)))
+    | missingPrecDigits => exact Or.inr (Or.inr (Or.inr (Or.inr (Or.inl rfl))))
+    | invalidConv c => exact Or.inr (Or.inr (Or.inr (Or.inr (Or.inr ⟨c, rfl⟩))))
+    | fuel => exact absurd hres (parseParts_ne_fuel _ _ (Nat.lt_succ_self _))
+
+/-- A format string without `%` is one literal (the empty string: no parts). -/
+theorem C19_parse_literal (s : List Char) (hs : '%' ∉ s) :
+    parseFormat s = .ok (if s = [] then [] else [.lit s]) := by
+  unfold parseFormat parseParts
+  split
+  · rfl
+  · rw [splitAt1_none hs]
+
+/-- Left-to-right diagnosis: the text before the first `%` is a literal, the directive
+    after it is parsed by `parseCode` (whose error, if any, is the error of the whole
+    format), and the remainder is parsed the same way. -/
+theorem C19_parse_first_directive (pre rest : List Char) (hp : '%' ∉ pre) :
+    parseFormat (pre ++ '%' :: rest) =
+      match parseCode rest with
+      | .error e => .error e
+      | .ok (c, rest') =>
+        match parseFormat rest' with
+        | .error e => .error e
+        | .ok ps => .ok ((if pre = [] then [] else [Part.lit pre]) ++ Part.code c :: ps) :=
+  parseFormat_first pre rest hp
+
+-- each diagnosed malformation, on the shortest inputs
+example : parseFormat ['%'] = .error .truncated := by rfl
+example : parseFormat ['%', '(', 'a'] = .error .truncated := by rfl
+example : parseFormat ['%', '5', '.'] = .error .truncated := by rfl
+example : parseFormat ['%', '.', 'd'] = .error .missingPrecDigits := by rfl
+example : parseFormat ['%', 'l', 'l', 'd'] = .error (.invalidConv 'l') := by rfl
+example : parseFormat ['a', '%', '4', '2', '9', '4', '9', '6', '7', '2', '9', '6', 'd'] =
+    .error .widthTooLarge := by rfl
+example : parseFormat ['%', '.', '4', '2', '9', '4', '9', '6', '7', '2', '9', '6', 'd'] =
+    .error .precTooLarge := by rfl
+example : parseFormat ['%', '(', 'k', ')', '#', '0', '-', ' ', '+', '*', '.', '*', 'L', 'G'] =
+    .ok [.code { mkey := some ['k'], flags := ⟨true, true, true, true, true⟩, fw := some .ext,
+                 prec := some .ext, lenMod := some 'L', conv := .gU }] := by rfl
+
+/-! ## `%c` and `%s` -/
+
+/-- **C19 char_string.** `%s` of a string is the string itself (any code points);
+    other values print their `std.toString` text.  `%c` of a one-character string is
+    that string, of a number is the character with that (truncated) code point when it
+    is a Unicode scalar value; everything else is an error.  Flags `# 0 + space` and
+    the precision have no effect on either (the width is applied by `padField`). -/
+theorem C19_char_string (h : Host) (c : Code) (fw prec : Nat) :
+    (c.conv = .str → ∀ s, renderCode h c fw prec (.str s) = .ok s) ∧
+    (c.conv = .str → ∀ ty r, renderCode h c fw prec (.other ty r) = .ok r) ∧
+    (c.conv = .chr → ∀ ch, renderCode h c fw prec (.str [ch]) = .ok [ch]) ∧
+    (c.conv = .chr → ∀ s, s.length ≠ 1 → renderCode h c fw prec (.str s) = .error (.charLen s.length)) ∧
+    (c.conv = .chr → ∀ b n, tryU32 b = some n → validScalar n = true →
+        renderCode h c fw prec (.num b) = .ok [Char.ofNat n]) ∧
+    (c.conv = .chr → ∀ b, (∀ n, tryU32 b = some n → validScalar n = false) →
+        renderCode h c fw prec (.num b) = .error .charBadCodepoint) ∧
+    (c.conv = .chr → ∀ ty r, renderCode h c fw prec (.other ty r) = .error (.charBadType ty)) := by
+  refine ⟨fun hc s => ?_, fun hc ty r => ?_, fun hc ch => ?_, fun hc s hs => ?_,
+    fun hc b n hn hv => ?_, fun hc b hb => ?_, fun hc ty r => ?_⟩
+  · simp [renderCode, hc]
+  · simp [renderCode, hc]
+  · simp [renderCode, hc]
+  · simp [renderCode, hc, hs]
+  · simp [renderCode, hc, hn, hv]
+  · cases hn : tryU32 b with
+    | none => simp [renderCode, hc, hn]
+    | some n => simp [renderCode, hc, hn, hb n hn]
+  · simp [renderCode, hc]
+
+/-! ## Argument accounting -/
+
+theorem format_array {h : Host} {f : List Char} {parts : List Part} (l : List Val)
+    (hp : parseFormat f = .ok parts) :
+    format h (.str f) (.arr l) = fmtArrayGo h l parts 0 [] := by
+  simp [format, hp]
+
+/-- **C19 args_accounting.** A successful array formatting consumed exactly
+    `needed parts` items = one per non-`%%` directive plus one per `*`, and that is
+    the whole array.  "not enough" is reported only when the array is shorter than
+    that, "too many" only when it is longer (with the exact numbers), and whenever the
+    counts differ the result is an error. -/
+theorem C19_args_accounting {h : Host} {parts : List Part} {arr : List Val} :
+    (∀ out, fmtArrayGo h arr parts 0 [] = .ok out → needed parts = arr.length) ∧
+    (∀ g, fmtArrayGo h arr parts 0 [] = .error (.notEnough g) →
+        g = arr.length ∧ arr.length < needed parts) ∧
+    (∀ a b, fmtArrayGo h arr parts 0 [] = .error (.tooMany a b) →
+        a = needed parts ∧ b = arr.length ∧ needed parts < arr.length) ∧
+    (needed parts ≠ arr.length → ∃ e, fmtArrayGo h arr parts 0 [] = .error e) := by
+  refine ⟨fun out ho => ?_, fun g hg => ?_, fun a b hab => ?_, fun hne => ?_⟩
+  · have := (fmtArrayGo_ok (Nat.zero_le _) ho).1; omega
+  · have := (fmtArrayGo_err (Nat.zero_le _) hg).1 g rfl; omega
+  · have := (fmtArrayGo_err (Nat.zero_le _) hab).2 a b rfl; omega
+  · cases hres : fmtArrayGo h arr parts 0 [] with
+    | error e => exact ⟨e, rfl⟩
+    | ok out =>
+      have := (fmtArrayGo_ok (Nat.zero_le _) hres).1
+      omega
+
+/-! ## Host precision (F2) -/
+
+/-- **C19 no_host_panic.** The result does not depend on what the host formatter
+    would do for precisions above `MAX_HOST_PREC = 1100 ≤ 65535` — it is never asked —
+    so the host's precision panic is unreachable; `unreachable!()` is unreachable;
+    and the two `unwrap()`s on `{:e}` output can fail only if that output violates its
+    contract (`HostExpWF`). -/
+theorem C19_no_host_panic {h : Host} {f : Val} {vals : Vals} :
+    (∀ h', HostAgree h h' → format h f vals = format h' f vals) ∧
+    (∀ k, format h f vals = .error (.render (.hostPanic k)) → (k = 1 ∨ k = 2) ∧ ¬ HostExpWF h) ∧
+    MAX_HOST_PREC ≤ HOST_LIMIT := by
+  refine ⟨fun h' A => format_agree A f vals, fun k hk => ?_, max_le_limit⟩
+  have key : ∀ c fw prec item, c.conv ≠ .pct →
+      renderCode h c fw prec item = .error (.hostPanic k) → (k = 1 ∨ k = 2) ∧ ¬ HostExpWF h := by
+    intro c fw prec item hc hr
+    rcases renderCode_panic hr with ⟨_, hp⟩ | hgood
+    · exact absurd hp hc
+    · exact hgood
+  unfold format at hk
+  split at hk
+  · split at hk
+    · cases hk
+    · split at hk
+      · obtain ⟨c, fw, prec, item, hc, hr⟩ := fmtArrayGo_render_err hk
+        exact key c fw prec item hc hr
+      · obtain ⟨c, fw, prec, item, hc, hr⟩ := fmtObjectGo_render_err hk
+        exact key c fw prec item hc hr
+      · obtain ⟨c, fw, prec, item, hc, hr⟩ := fmtArrayGo_render_err hk
+        exact key c fw prec item hc hr
+  · cases hk
+
+/-! ## Non-vacuity: concrete runs of the model -/
+
+/-- a host that knows nothing (integer and string conversions never consult it) -/
+def nullHost : Host :=
+  { fixed := fun _ _ => none, exp := fun _ _ => none, disp := fun _ => none,
+    log10floor := fun _ => none, numStr := fun _ => none }
+
+/-- a host that answers `1.5` at precisions 2 and 1 (what Rust prints) -/
+def demoHost : Host :=
+  { nullHost with
+    fixed := fun _ p => if p = 2 then some ['1', '.', '5', '0'] else none,
+    exp := fun _ p => if p = 1 then some ['1', '.', '5', 'e', '0'] else none }
+
+-- 42.0 = 0x4045000000000000, -3.0 = 0xC008000000000000, 1.5 = 0x3FF8000000000000
+example : format nullHost (.str ['%', '0', '5', 'd', '|']) (.arr [.num 0x4045000000000000]) =
+    .ok ['0', '0', '0', '4', '2', '|'] := by rfl
+example : format nullHost (.str ['%', '-', '#', '6', 'x', '|']) (.one (.num 0xC008000000000000)) =
+    .ok ['-', '0', 'x', '3', ' ', ' ', '|'] := by rfl
+example : format nullHost (.str ['%', '3', 's', '|']) (.arr [.str ['é', 'é']]) =
+    .ok [' ', 'é', 'é', '|'] := by rfl
+example : format nullHost (.str ['%', '*', 'd', '%', '%']) (.arr [.num 0x4045000000000000]) =
+    .error (.notEnough 1) := by rfl
+example : format nullHost (.str ['%', 'd']) (.arr [.num 0x4045000000000000, .num 0x4045000000000000]) =
+    .error (.tooMany 1 2) := by rfl
+example : format nullHost (.str ['%', '.']) (.arr []) = .error (.parse .truncated) := by rfl
+example : format nullHost (.str ['%', '(', 'k', ')', '+', '.', '3', 'o'])
+    (.obj [(['k'], .num 0x4045000000000000)]) = .ok ['+', '0', '5', '2'] := by rfl
+example : format demoHost (.str ['%', '0', '8', '.', '2', 'f']) (.arr [.num 0x3FF8000000000000]) =
+    .ok ['0', '0', '0', '0', '1', '.', '5', '0'] := by rfl
+example : format demoHost (.str ['%', '+', '.', '1', 'E']) (.arr [.num 0x3FF8000000000000]) =
+    .ok ['+', '1', '.', '5', 'E', '+', '0', '0'] := by rfl
+example : HostExpWF demoHost := by
+  intro ab p s hs
+  simp only [demoHost] at hs
+  split at hs
+  · cases hs; exact ⟨['1', '.', '5'], ['0'], 0, by rfl, by rfl⟩
+  · cases hs
+example : HostAgree demoHost demoHost :=
+  ⟨fun _ _ _ => rfl, fun _ _ _ => rfl, fun _ => rfl, fun _ => rfl, fun _ => rfl⟩
+example : isIntConv Conv.hexL = true ∧ isFloatConv Conv.gU = true := ⟨rfl, rfl⟩
+
 end Rsj.Format
+
 open Rsj.Format in
-#print axioms C19_placeholder
+#print axioms C19_field_width
+open Rsj.Format in
+#print axioms C19_field_width_object
+open Rsj.Format in
+#print axioms C19_field_width_format
+open Rsj.Format in
+#print axioms C19_left_flag_pads_right
+open Rsj.Format in
+#print axioms C19_sign_rules
+open Rsj.Format in
+#print axioms C19_sign_rules_render
+open Rsj.Format in
+#print axioms C19_zero_flag_pads_after_sign
+open Rsj.Format in
+#print axioms C19_precision_min_digits
+open Rsj.Format in
+#print axioms C19_alt_prefixes
+open Rsj.Format in
+#print axioms C19_alt_prefixes_render
+open Rsj.Format in
+#print axioms C19_int_digits_correct
+open Rsj.Format in
+#print axioms C19_int_digits_zero
+open Rsj.Format in
+#print axioms C19_percent_literal
+open Rsj.Format in
+#print axioms C19_parse_total
+open Rsj.Format in
+#print axioms C19_parse_literal
+open Rsj.Format in
+#print axioms C19_parse_first_directive
+open Rsj.Format in
+#print axioms C19_char_string
+open Rsj.Format in
+#print axioms C19_args_accounting
+open Rsj.Format in
+#print axioms C19_no_host_panic
